@@ -514,6 +514,14 @@ def tzif(zone):
     return default, [(t, types[i][0]) for t, i in zip(times, idx)]
 
 
+def has_rule_after_table(zone):
+    """does the zone keep changing its offset after the last explicit transition of its table (POSIX rule in the TZif footer)?
+    The model takes the table as its input, so instants beyond the table are only used for zones without such a rule"""
+    d = open("/usr/share/zoneinfo/" + zone, "rb").read()
+    footer = d.rstrip(b"\n").rsplit(b"\n", 1)[-1]
+    return b"," in footer
+
+
 def zone_args(zone):
     zd, tr = tzif(zone)
     return zd, [[a, b] for a, b in tr]
